@@ -309,6 +309,12 @@ shared_ptr<IDataArray> BlockHDF5::createDataArray(const std::string &name,
                                                   nix::DataType data_type,
                                                   const NDSize &shape,
                                                   const Compression &compression) {
+    // validate what createData() below would reject, before the group exists:
+    // throws for element types that cannot be stored; a dataset needs at least one dimension
+    h5x::DataType fileType = data_type_to_h5_filetype(data_type);
+    if (shape.size() == 0) {
+        throw InvalidRank("Block::createDataArray: cannot create 0-dimensional data");
+    }
     string id = util::createId();
     boost::optional<H5Group> g = data_array_group(true);
 
